@@ -16,9 +16,9 @@ fn any_maxlen() -> Option<u8> {
 /// One IPv4 ROA address of a fixed prefix length (the length is a harness
 /// parameter so that the number of BIT STRING octets is concrete), arbitrary
 /// address bits and arbitrary optional max length.
-fn any_v4_addr(len: u8) -> RoaIpAddress {
+fn any_v4_addr(len: u8, ml: Option<u8>) -> RoaIpAddress {
     let a: u32 = kani::any();
-    RoaIpAddress::new_addr(IpAddr::V4(Ipv4Addr::from(a)), len, any_maxlen())
+    RoaIpAddress::new_addr(IpAddr::V4(Ipv4Addr::from(a)), len, ml)
 }
 
 fn same(a: RoaIpAddress, b: RoaIpAddress) -> bool {
@@ -27,9 +27,9 @@ fn same(a: RoaIpAddress, b: RoaIpAddress) -> bool {
         && a.max_length() == b.max_length()
 }
 
-fn built_v4_iter_one(len: u8) {
+fn built_v4_iter_one(len: u8, ml: Option<u8>) {
     let asn: u32 = kani::any();
-    let x = any_v4_addr(len);
+    let x = any_v4_addr(len, ml);
     let mut b = RoaBuilder::new(Asn::from_u32(asn));
     b.push_v4(x);
     let att = b.to_attestation();
@@ -63,4 +63,4 @@ fn built_v4_iter_one(len: u8) {
 /// @out more than one prefix per family in this member; signing
 #[kani::proof]
 #[kani::unwind(8)]
-fn roa_built_v4_len24_iterates() { built_v4_iter_one(24); }
+fn roa_built_v4_len24_iterates() { built_v4_iter_one(24, None); }
